@@ -425,7 +425,9 @@ def build(tier):
             'step: one whole iteration executed from an arbitrary loop-head state satisfying I: ::make_smax by the clauses proved for it with its precondition u > 0 '
             'OBLIGED at the call, both backtracking loops by invariants of their own (0 < s <= s at loop entry, 0 <= iter <= max; checked on entry, preserved, '
             'variant), stage 1 leaves through break only where (G (x + s dx) - h).maxCoeff() < 0 was evaluated, and on the path to the next loop head G x+ - h < 0 '
-            '(convexity of the strictly feasible set: the step finally taken is at most the step tested), u+ >= 0, and u+ > 0 when s0 < 1',
+            '(convexity of the strictly feasible set: the step finally taken is at most the step tested), u+ >= 0, and u+ > 0 when s0 < 1; together with `same '
+            'strictly feasible set` of the normalisation (held row < 0 <=> the caller\'s row < 0) every inequality row AS THE CALLER STATED IT holds strictly at '
+            'every iterate, hence at the returned x (over the reals)',
             'BOUNDED (quick tier: n = 2, p = 1, QP; thorough: n <= 3, p <= 2), solve_without_inequality over the reals (specs/C04/swo.py), WITHOUT assuming that '
             'the LDLT solution solves the system: the returned x / v are the two segments of the vector the isApprox test looks at; the vectors compared are '
             'K (x, v) and (-c, b) with K = [[Q, A\'], [A, 0]] of the held program, precision epsilon2; converged <=> valid && aprox, failed <=> !valid, unfeasible '
@@ -524,7 +526,9 @@ def replay(rp):
       solver_done*               the verifier's (eta, |rdual|, |rprim|, epsilon) in a real state -> the REAL solver_t::done
       normalize / program_*      LP / QP with objective norm below the 1e-3 floor: reported fx against the objective at x
       solve_without_inequality   contradicting equalities, no inequalities: converged must not be reported
-      solve_with_inequality_res  small QPs: residual fields of a converged state recomputed at the returned (x, u, v)"""
+      solve_with_inequality_res  small QPs: residual fields of a converged state recomputed at the returned (x, u, v)
+      reduce_rows[..]            a QP with two independent equality rows, as stated and with the rows rescaled (x 100, / 100): converged => the STATED
+                                 rows hold within 1e-6 (1 + |b|_inf) and both statements return the same point"""
     import math
     import replaylib
     out = {'reproduced': False, 'runs': []}
@@ -534,6 +538,8 @@ def replay(rp):
         return out
     scen = {'normalize': ['scale'], 'program_ctor': ['scale'], 'program_update_vec': ['scale'], 'program_update_expr': ['scale'],
             'solve_without_inequality': ['noineq'], 'solve_with_inequality_res': ['stale', '200']}
+    if tgt.startswith('reduce_rows'):
+        scen[tgt] = ['rescale']
     if not tgt.startswith('solver_done') and tgt not in scen:
         out['note'] = 'no native driver for this target: the replay file carries the verifier output only'
         return out
